@@ -203,7 +203,7 @@ def rule_pred(ctx):
         probs.append("membership test not applied once per prime")
         continue
       a = calls[0].data["args"]
-      prime = vis["head"].env.get("prime")
+      prime = sym.mk("idx", as_poly(vis["iter"]), as_poly(vis["k"])) if isinstance(vis["iter"], Poly) else None     # the loop's element, whatever it is called
       if prime is None or as_poly(a[2]) != as_poly(prime) or "F4" not in repr(as_poly(a[1])):
         probs.append("membership test is not HasDiscreteLog(N mod prime, F4, prime)")
       va = as_poly(a[0]).as_atom()
@@ -227,8 +227,17 @@ def rule_pred(ctx):
   if not (after and all(isinstance(e.data["value"], Const) and e.data["value"].v is True for e in after)):
     probs.append("does not return True after all primes passed")
   init = repo.func("roca", "ROCAKeyDetector.__init__")
-  src = ast.unparse(init.node)
-  if not ("for prime in self.PRIMES:" in src and "self.product_of_primes *= prime" in src and "self.product_of_primes = 1" in src):
+  wi_ = sym.Walker(repo, init)
+  wi_.run()
+  PP = sym.mk("attr", SELF, "product_of_primes")
+  sets_ = [e for e in wi_.events if e.kind == "setattr" and e.data["attr"] == "product_of_primes" and as_poly(e.data["base"]) == SELF]
+  first_ = [e for e in sets_ if not e.state.tags]
+  inl_ = [e for e in sets_ if e.state.tags]
+  lp_ = [i_ for i_ in wi_.loop_info.values() if i_["visits"] and isinstance(i_["visits"][0]["iter"], Poly) and i_["visits"][0]["iter"] == sym.mk("attr", SELF, "PRIMES")]
+  okpp = bool(first_) and all(as_poly(e.data["value"]).as_int() == 1 for e in first_) and len(lp_) == 1 and bool(inl_) and \
+      all(isinstance(e.data["value"], Poly) and e.data["value"] == PP * sym.mk("idx", sym.mk("attr", SELF, "PRIMES"), as_poly(lp_[0]["visits"][0]["k"])) for e in inl_) and \
+      all(bp[0] == "fall" for bp in lp_[0]["body_paths"])
+  if not okpp:
     probs.append("product_of_primes is not the product of PRIMES")
   ctx.record(R, f.where, "weak <=> for all primes: N mod p is a power of F4", not probs, "; ".join(sorted(set(probs))) or "for-all loop: False on first failure, True after the loop")
   f = repo.func("roca", "ROCAKeyVariantDetector.IsWeak")
@@ -274,8 +283,18 @@ def rule_pred(ctx):
   if not (okT and okF):
     probs.append("ROCA keys are not excluded (variant must be non-ROCA)")
   init = repo.func("roca", "ROCAKeyVariantDetector.__init__")
-  src = ast.unparse(init.node)
-  if not ("for p in self.PRIMES:" in src and "self.quadratic_residues[p] = self._QuadraticResidues(p)" in src and "self.roca_key_detector = ROCAKeyDetector()" in src):
+  wv_ = sym.Walker(repo, init)
+  wv_.run()
+  PR_ = sym.mk("attr", SELF, "PRIMES")
+  lpv = [i_ for i_ in wv_.loop_info.values() if i_["visits"] and isinstance(i_["visits"][0]["iter"], Poly) and i_["visits"][0]["iter"] == PR_]
+  okv = len(lpv) == 1 and all(bp[0] == "fall" for bp in lpv[0]["body_paths"])
+  if okv:
+    el_ = sym.mk("idx", PR_, as_poly(lpv[0]["visits"][0]["k"]))
+    st_ = [e for e in wv_.events if e.kind == "store" and e.state.tags]
+    okv = bool(st_) and all(isinstance(e.data.get("base"), Poly) and e.data["base"] == sym.mk("attr", SELF, "quadratic_residues") and as_poly(e.data["index"]) == el_ and
+                            isinstance(e.data["value"], Poly) and e.data["value"] == sym.mk("mcall", SELF, lit("_QuadraticResidues"), el_) for e in st_)
+  det_ = [e for e in wv_.events if e.kind == "setattr" and e.data["attr"] == "roca_key_detector" and isinstance(e.data["value"], Poly) and "ROCAKeyDetector" in repr(e.data["value"])]
+  if not (okv and det_):
     probs.append("residue tables are not built for every prime of PRIMES")
   ctx.record(R, f.where, "weak <=> QR modulo all primes and not ROCA", not probs, "; ".join(sorted(set(probs))) or "for-all loop over the 48 residue tables, ROCA hits excluded")
   # ---- denylist
@@ -324,7 +343,11 @@ def rule_dlog_loop(ctx):
   else:
     info = loops[0]
     vis = info["visits"][0]
-    if as_poly(vis["pre"].env.get("accumulator")).as_int() != 1:
+    # the running power: the carried variable that is compared with the value and multiplied by the base
+    accn = [nm for nm in info["modified"] if isinstance(vis["head"].env.get(nm), Poly) and vis["head"].env[nm].as_atom() is not None and vis["head"].env[nm].as_atom().kind == "sym"
+            and nm in vis["pre_env"] and vis["pre_env"][nm] is not None]
+    ACC = accn[0] if len(accn) == 1 else "accumulator"
+    if as_poly(vis["pre"].env.get(ACC)).as_int() != 1:
       probs.append("accumulator does not start at 1 (= base^0)")
     it = as_poly(vis["iter"]).as_atom()
     trips = None
@@ -335,13 +358,13 @@ def rule_dlog_loop(ctx):
         trips = it.args[1] - it.args[0]
     if trips is None or not (trips - (n - 1)).is_zero() and not ((trips - (n - 1)).as_int() or -1) >= 0:
       probs.append("loop runs %r times, fewer than the n - 1 elements of the multiplicative group" % (trips,))
-    acc_h = as_poly(vis["head"].env.get("accumulator"))
+    acc_h = as_poly(vis["head"].env.get(ACC))
     for kind, val, s, since, v in info["body_paths"]:
       if kind == "return":
         if not (isinstance(val, Const) and val.v is True and any(f_[0] == "cmp" and f_[1] == "Eq" and {repr(as_poly(f_[2])), repr(as_poly(f_[3]))} == {repr(acc_h), repr(value)} for f_ in s.facts)):
           probs.append("True is not returned exactly when the current power equals the value")
       elif kind in ("fall", "continue"):
-        acc_e = as_poly(s.env.get("accumulator"))
+        acc_e = as_poly(s.env.get(ACC))
         if acc_e != sym.mk("mod", acc_h * sym.mk("mod", base, n), n):
           probs.append("accumulator update is not acc * (base mod n) mod n")
         if not any(f_[0] == "cmp" and f_[1] == "NotEq" for f_ in s.facts):
